@@ -832,17 +832,13 @@ func TestVerifC13PresentedOnTheWire(t *testing.T) {
 			return
 		}
 		seen++
-		if c.SNI == "" {
-			for _, x := range list {
-				if x.Name.ServerName == "" {
-					p.Count("absent_sni_with_empty_server_name_not_compared", 1)
-					return
-				}
-			}
-		}
 		p.Count("compared", 1)
 		if !accepted[got] {
-			p.Violation(fmt.Sprintf("presented-on-the-wire sni=%s: the client sees another certificate than the statement selects (by %s)", c13SniClass(c.SNI), rule),
+			key := fmt.Sprintf("presented-on-the-wire sni=%s: the client sees another certificate than the statement selects (by %s)", c13SniClass(c.SNI), rule)
+			if k := c13NoSNIClass(list, states, c.SNI, got); k != "" {
+				key = k
+			}
+			p.Violation(key,
 				fmt.Sprintf("contexts %v, sni=%q alpn=%v: statement selects %v, the reference client received the leaf of position %d", list, c.SNI, c.ALPN, accepted, got), c)
 		}
 	})
